@@ -11,10 +11,7 @@ global size_of usize == 8;
 //@include common/wordid_stub.rs.inc
 impl From<IoErr> for SudachiError { #[verifier::external_body] fn from(e: IoErr) -> SudachiError { SudachiError::Other } }
 #[verifier::external_body] fn err_string() -> String { String::new() }   // R12: message texts are not verified
-uninterp spec fn le32(v: u32) -> Seq<u8>;
-#[verifier::external_body]
-fn u32_to_le_bytes(v: u32) -> (r: [u8; 4]) ensures r@ == le32(v), r@.len() == 4 { v.to_le_bytes() }
-proof fn axiom_le32_len(v: u32) ensures le32(v).len() == 4 { admit(); }
+//@include specs/codec_wr32.rs.inc
 //@extract sudachi/src/analysis/mod.rs :: enum Mode
 //@  derive Clone, Copy, PartialEq, Eq, Structural
 //@end
@@ -93,7 +90,7 @@ proof fn lemma_params_len(es: Seq<RawLexiconEntry>, k: int)
 { if k > 0 { lemma_params_len(es, k - 1); } }
 proof fn lemma_offsets_len(es: Seq<RawLexiconEntry>, section: int, k: int)
     requires 0 <= k ensures offsets_all(es, section, k).len() == 4 * k decreases k
-{ if k > 0 { lemma_offsets_len(es, section, k - 1); axiom_le32_len((rec_base(section, es.len() as int) + recs_len(es, k - 1)) as u32); } }
+{ if k > 0 { lemma_offsets_len(es, section, k - 1); lemma_le32_len((rec_base(section, es.len() as int) + recs_len(es, k - 1)) as u32); } }
 
 impl<'a> LexiconWriter<'a> {
 //@extract sudachi/src/dic/build/lexicon.rs :: impl<'a> LexiconWriter<'a> :: fn write
@@ -178,7 +175,7 @@ proof fn theorem_offset_points_at_record(es: Seq<RawLexiconEntry>, section: int,
     })
 {
     let n = es.len() as int;
-    lemma_params_len(es, n); lemma_offsets_len(es, section, n); lemma_recs_len(es, n); lemma_recs_len(es, i); axiom_le32_len(n as u32);
+    lemma_params_len(es, n); lemma_offsets_len(es, section, n); lemma_recs_len(es, n); lemma_recs_len(es, i); lemma_le32_len(n as u32);
     lemma_rec_at(es, i, n);
     let head = le32(n as u32) + params_all(es, n) + offsets_all(es, section, n);
     let body = head + recs_all(es, n);
